@@ -290,6 +290,22 @@ pub fn run(w: Arc<World>, seed: u64, rng: &mut Rng, schedules: Vec<Value>, n: us
                         }
                     }
                 }
+                // every reply of the batch has arrived, so every event of the batch has been delivered:
+                // drain all subscriber channels (C12 through the actor)
+                let mut evs = vec![];
+                for (j, (_tx, rx)) in subs.all.iter().enumerate() {
+                    let mut got = vec![];
+                    while let Ok(ev) = rx.try_recv() {
+                        got.push(match ev {
+                            Event::LocalInsert { entry, .. } => json!({"o":"local","e":w.proj_entry(&entry),"from":0,"cs":0,"dl":false}),
+                            Event::RemoteInsert { entry, from, should_download, remote_content_status, .. } => {
+                                json!({"o":"remote","e":w.proj_entry(&entry),"from":w.peer_rank(&from),"cs":cs_num(remote_content_status),"dl":should_download})
+                            }
+                        });
+                    }
+                    evs.push(json!({"sid": j + 1, "events": got}));
+                }
+                trace.emit(json!({"ev":"Drain","batch":bi,"evs":evs}));
             }
             handle.shutdown().await.map_err(|_| ())
         });
